@@ -93,12 +93,11 @@ Definition revoke_rt (s : cstore) (r : nat) : cstore * cres :=
       | Some (_, r') => (set_rt s (tset k (false, r') (c_rt s)), K)
       end
   end.
-(* RevokeAccessToken: deletes the record the index points to *)
-Definition revoke_at (s : cstore) (r : nat) : cstore * cres :=
-  match tget r (c_atidx s) with
-  | None => (s, K)
-  | Some k => (set_at s (tdel k (c_at s)), K)
-  end.
+(* RevokeAccessToken (repaired, commit 208b00a): deletes EVERY access-token record whose request
+   id is r (a loop over AccessTokens); the index AccessTokenRequestIDs is neither consulted nor
+   changed.  (Before the repair only the record the index pointed to was deleted.) *)
+Definition tdrop_rid (r : nat) (t : tab nat) : tab nat := filter (fun kv => negb (Nat.eqb (snd kv) r)) t.
+Definition revoke_at (s : cstore) (r : nat) : cstore * cres := (set_at s (tdrop_rid r (c_at s)), K).
 
 Definition sstep (clients : list nat) (s : cstore) (c : scall) : cstore * cres :=
   match c with
